@@ -7,9 +7,14 @@ Re-emits, from the current source,
     `dueSave (since rep : Nat) : Bool`, with the two constants;
   * the file-system steps of `SimulationResults._save_to_pickle` and
     `_save_to_json` (following a call to a module-level helper) as lists of
-    `PyPhysim.C07.SlotOp`: `with open(<target>, 'w..')` -> `.trunc`, a write into
-    that file -> `.write c`; `with open(<other name>, 'w..')` -> `.tmpOpen`, a
-    write into it -> `.tmpWrite`; `os.replace(<other name>, <target>)` -> `.rename c`.
+    `PyPhysim.C07.SlotOp`, IN SOURCE ORDER: `with open(<target>, 'w..')` -> `.trunc`, a
+    write into that file -> `.write c`; `with open(<other name>, 'w..')` -> `.tmpOpen`, a
+    write into it -> `.tmpWrite c`, `F.flush()` -> `.tmpFlush`, `os.fsync(F.fileno())` ->
+    `.tmpFsync`, the end of the `with` block -> `.tmpClose`;
+    `os.replace(<other name>, <target>)` -> `.rename c`; an `os.fsync(..)` after the
+    rename -> `.syncMain`.  (Removing `flush`, removing `fsync`, or moving either changes
+    the emitted list, which the theorem `generated_save_matches_model` compares with the
+    protocol the power-loss theorems are about.)
 
 Fragment (anything else raises TranslateError => "tie broken"):
   save rule : a single `if A or B:` whose disjuncts are `<x> - self.<attr> > INT`
@@ -17,8 +22,8 @@ Fragment (anything else raises TranslateError => "tie broken"):
   writers   : statements `with open(N, MODE) as F: <body>`, `try: <body> except ...: <cleanup>`
               (the handlers are not part of the normal path), `name = <expr>` (a derived
               file name), expression statements that are calls; inside a `with` body a
-              call mentioning `F` as an argument or receiver is a write unless its
-              attribute name is flush / fileno / close, `os.fsync(..)` is ignored;
+              call mentioning `F` as an argument or receiver is a write unless it is
+              `F.flush()` / `os.fsync(F.fileno())` (emitted as steps) or `F.close()`;
               one call of a helper `helper(filename, MODE, <callable>)` is inlined
               (the callable is applied to the file: one write).
 """
@@ -29,7 +34,7 @@ from harness.translate import TranslateError, parse_file, find_fn
 
 RUNNER = 'pyphysim/simulations/runner.py'
 RESULTS = 'pyphysim/simulations/results.py'
-IGNORED_ATTRS = {'flush', 'fileno', 'close'}
+IGNORED_ATTRS = {'close'}
 
 
 def _int(e):
@@ -107,13 +112,26 @@ class Writer:
                 self.ops.append('.rename c')
                 return
             if e.func.attr == 'fsync':
+                if fvar is not None and kind == 'tmp' and self.mentions(e, fvar) and '.rename c' not in self.ops:
+                    self.ops.append('.tmpFsync')
+                elif '.rename c' in self.ops:
+                    self.ops.append('.syncMain')
+                elif fvar is not None and kind == 'main':
+                    pass        # in-place writing has no separate durability step in the model
+                else:
+                    raise TranslateError('os.fsync of something that is not the file being written')
                 return
             raise TranslateError('unsupported os.%s in the save path' % e.func.attr)
         if fvar is not None and self.mentions(e, fvar):
             if isinstance(e.func, ast.Attribute) and isinstance(e.func.value, ast.Name) \
                     and e.func.value.id == fvar and e.func.attr in IGNORED_ATTRS:
                 return
-            self.ops.append('.write c' if kind == 'main' else '.tmpWrite')
+            if isinstance(e.func, ast.Attribute) and isinstance(e.func.value, ast.Name) \
+                    and e.func.value.id == fvar and e.func.attr == 'flush':
+                if kind == 'tmp':
+                    self.ops.append('.tmpFlush')
+                return
+            self.ops.append('.write c' if kind == 'main' else '.tmpWrite c')
             return
         # a helper taking (filename, mode, callable)
         if isinstance(e.func, ast.Name) and e.args and isinstance(e.args[0], ast.Name) \
@@ -154,6 +172,8 @@ class Writer:
                 k = 'main' if name == self.target else 'tmp'
                 self.ops.append('.trunc' if k == 'main' else '.tmpOpen')
                 self.block(s.body, it.optional_vars.id, k)
+                if k == 'tmp':
+                    self.ops.append('.tmpClose')
             else:
                 raise TranslateError('unsupported statement in the save path: %s' % type(s).__name__)
 
